@@ -106,9 +106,13 @@ pub fn new_be(path: Option<&Path>, pool: u32) -> Result<(Backend, Schema), Opera
 /// Open (or create) a server on `path` the way the daemon does at start-up: new backend, new
 /// query server seeded with `curtime`, then `initialise_helper(curtime, target level)`.
 pub async fn open_qs(path: Option<&Path>, pool: u32, curtime: Duration) -> Result<QueryServer, OperationError> {
+    open_qs_level(path, pool, curtime, DOMAIN_TGT_LEVEL).await
+}
+
+pub async fn open_qs_level(path: Option<&Path>, pool: u32, curtime: Duration, level: u32) -> Result<QueryServer, OperationError> {
     let (be, schema) = new_be(path, pool)?;
     let qs = QueryServer::new(be, schema, srv::DOMAIN.to_string(), curtime)?;
-    qs.initialise_helper(curtime, DOMAIN_TGT_LEVEL).await?;
+    qs.initialise_helper(curtime, level).await?;
     Ok(qs)
 }
 
@@ -150,10 +154,18 @@ impl Template {
         rt: &tokio::runtime::Runtime,
         setup: impl FnOnce(&mut QueryServerWriteTransaction<'_>) -> Result<(), OperationError>,
     ) -> Template {
+        Self::build_level(rt, DOMAIN_TGT_LEVEL, setup)
+    }
+
+    pub fn build_level(
+        rt: &tokio::runtime::Runtime,
+        level: u32,
+        setup: impl FnOnce(&mut QueryServerWriteTransaction<'_>) -> Result<(), OperationError>,
+    ) -> Template {
         let scratch = Scratch::new();
         let file = scratch.file("template.db");
         rt.block_on(async {
-            let qs = open_qs(Some(&file), 2, srv::t0()).await.expect("template init");
+            let qs = open_qs_level(Some(&file), 2, srv::t0(), level).await.expect("template init");
             let mut w = qs.write(srv::ct(1)).await.expect("template write");
             setup(&mut w).expect("template setup");
             w.commit().expect("template commit");
@@ -269,7 +281,11 @@ pub struct Srv {
 }
 
 pub async fn open_srv(path: Option<&Path>, pool: u32, curtime: Duration) -> Result<Srv, OperationError> {
-    let qs = open_qs(path, pool, curtime).await?;
+    open_srv_level(path, pool, curtime, DOMAIN_TGT_LEVEL).await
+}
+
+pub async fn open_srv_level(path: Option<&Path>, pool: u32, curtime: Duration, level: u32) -> Result<Srv, OperationError> {
+    let qs = open_qs_level(path, pool, curtime, level).await?;
     let origin = Url::parse("https://idm.example.com").expect("url");
     let (idms, d, a) = IdmServer::new(qs.clone(), &origin, true, curtime).await?;
     Ok(Srv {
@@ -319,6 +335,9 @@ pub enum TOp {
     DomainDisplay { v: u8 },
     /// rotate the signing key of OAuth2 client o{i}
     KeyRotate { i: u8 },
+    /// raise the domain functional level to the target level (only meaningful on the template
+    /// database that was created at the previous level): the transaction that changes the schema
+    DomainRaise,
 }
 
 fn acp_entry(n: u8, attrs: &[&str]) -> pop::NewEntry {
@@ -326,6 +345,8 @@ fn acp_entry(n: u8, attrs: &[&str]) -> pop::NewEntry {
     e.add_ava(Attribute::Class, EntryClass::Object.to_value());
     e.add_ava(Attribute::Class, EntryClass::AccessControlProfile.to_value());
     e.add_ava(Attribute::Class, EntryClass::AccessControlSearch.to_value());
+    e.add_ava(Attribute::Class, EntryClass::AccessControlReceiverGroup.to_value());
+    e.add_ava(Attribute::Class, EntryClass::AccessControlTargetScope.to_value());
     e.add_ava(Attribute::Name, Value::new_iname(&format!("vfacp{n}")));
     e.add_ava(Attribute::Uuid, Value::Uuid(acp_uuid(n)));
     e.add_ava(Attribute::AcpReceiverGroup, Value::Refer(Ref::G(0).uuid()));
@@ -383,6 +404,7 @@ pub fn apply_top(w: &mut QueryServerWriteTransaction<'_>, op: &TOp, ct: Duration
             ]),
         ),
         TOp::DomainDisplay { v } => w.set_domain_display_name(DISPLAY_NAMES[*v as usize % DISPLAY_NAMES.len()]),
+        TOp::DomainRaise => w.domain_raise(DOMAIN_TGT_LEVEL),
         TOp::KeyRotate { i } => w.internal_modify_uuid(
             Ref::O(*i).uuid(),
             &ModifyList::new_list(vec![Modify::Present(
@@ -416,7 +438,7 @@ pub fn populate(w: &mut QueryServerWriteTransaction<'_>) -> Result<(), Operation
 /// Everything a reader can observe that the property talks about.
 #[derive(Debug, Clone, PartialEq, Eq)]
 pub struct Settings {
-    /// schema: which vfattr{n} / vfclass{n} are known (a filter on them validates)
+    /// schema: names of all attributes (with index flag) and classes of the in-memory schema
     pub schema_attrs: BTreeSet<String>,
     pub schema_classes: BTreeSet<String>,
     /// access controls: attributes of G1 that P0 gets back from a search
@@ -426,6 +448,8 @@ pub struct Settings {
     pub kids: Vec<Option<Vec<String>>>,
     /// OAuth2 client configuration as the IDM layer serves it (None = unknown client)
     pub oauth2: Vec<Option<String>>,
+    /// in-memory replication update vector (what a replication supplier would offer)
+    pub ruv: Vec<String>,
 }
 
 #[derive(Debug, Clone, PartialEq, Eq)]
@@ -443,23 +467,23 @@ pub async fn snapshot(srv: &Srv) -> Result<Snapshot, OperationError> {
         }));
     }
     let r = &mut pr.qs_read;
-    let mut schema_attrs = BTreeSet::new();
-    let mut schema_classes = BTreeSet::new();
-    for n in 0..4u8 {
-        let an = schema_attr_name(n);
-        if Filter::new(f_pres(Attribute::from(an.as_str()))).validate(r.get_schema()).is_ok() {
-            schema_attrs.insert(an);
-        }
-        let cn = schema_class_name(n);
-        // an unknown class name is not a schema violation for a filter; ask the schema directly
-        if kanidmd_lib::schema::SchemaTransaction::get_classes(r.get_schema()).contains_key(cn.as_str()) {
-            schema_classes.insert(cn);
-        }
-    }
-    let access_p0_on_g1 = match r.internal_search_uuid(Ref::P(0).uuid()) {
-        Ok(p0) => {
+    let schema_attrs: BTreeSet<String> = kanidmd_lib::schema::SchemaTransaction::get_attributes(r.get_schema())
+        .iter()
+        .map(|(k, v)| format!("{}{}", k.as_str(), if v.indexed { " (indexed)" } else { "" }))
+        .collect();
+    let schema_classes: BTreeSet<String> = kanidmd_lib::schema::SchemaTransaction::get_classes(r.get_schema())
+        .keys()
+        .map(|k| k.to_string())
+        .collect();
+    let g1_name = r
+        .internal_search_uuid(Ref::G(1).uuid())
+        .ok()
+        .and_then(|e| e.get_ava_single_proto_string(Attribute::Name));
+    let access_p0_on_g1 = match (r.internal_search_uuid(Ref::P(0).uuid()), g1_name) {
+        (Ok(p0), Some(g1_name)) => {
             let idn = ident::user_readwrite(p0);
-            let f = Filter::new(f_eq(Attribute::Uuid, PartialValue::Uuid(Ref::G(1).uuid())))
+            // the profile in the template lets members of G0 search groups by name
+            let f = Filter::new(f_eq(Attribute::Name, PartialValue::new_iname(&g1_name)))
                 .validate(r.get_schema())
                 .map_err(OperationError::SchemaViolation)?;
             let se = kanidmd_lib::event::SearchEvent::new_impersonate(&idn, f.clone(), f);
@@ -472,10 +496,12 @@ pub async fn snapshot(srv: &Srv) -> Result<Snapshot, OperationError> {
                 Err(_) => None,
             }
         }
-        Err(_) => None,
+        _ => None,
     };
     let domain_display = r.get_domain_display_name().to_string();
     let kids = (0..ops::N_OAUTH).map(|i| hfault::key_object_kids(r, Ref::O(i).uuid())).collect();
+    let mut ruv: Vec<String> = kanidmd_lib::verif_hooks::repl::ruv_cids(r).iter().map(|c| format!("{c:?}")).collect();
+    ruv.sort();
     let dump = dump::dump_all(r)?;
     Ok(Snapshot {
         dump,
@@ -486,6 +512,7 @@ pub async fn snapshot(srv: &Srv) -> Result<Snapshot, OperationError> {
             domain_display,
             kids,
             oauth2,
+            ruv,
         },
     })
 }
@@ -494,9 +521,10 @@ pub async fn snapshot(srv: &Srv) -> Result<Snapshot, OperationError> {
 pub fn settings_diff(a: &Settings, b: &Settings) -> Vec<(&'static str, String)> {
     let mut out = Vec::new();
     if a.schema_attrs != b.schema_attrs || a.schema_classes != b.schema_classes {
+        let d = |x: &BTreeSet<String>, y: &BTreeSet<String>| x.symmetric_difference(y).take(6).cloned().collect::<Vec<_>>();
         out.push((
             "schema",
-            format!("{:?}/{:?} vs {:?}/{:?}", a.schema_attrs, a.schema_classes, b.schema_attrs, b.schema_classes),
+            format!("attributes differing {:?}, classes differing {:?}", d(&a.schema_attrs, &b.schema_attrs), d(&a.schema_classes, &b.schema_classes)),
         ));
     }
     if a.access_p0_on_g1 != b.access_p0_on_g1 {
@@ -508,8 +536,64 @@ pub fn settings_diff(a: &Settings, b: &Settings) -> Vec<(&'static str, String)> 
     if a.kids != b.kids {
         out.push(("key material", format!("{:?} vs {:?}", a.kids, b.kids)));
     }
+    if a.ruv != b.ruv {
+        let x: BTreeSet<&String> = a.ruv.iter().collect();
+        let y: BTreeSet<&String> = b.ruv.iter().collect();
+        out.push(("replication update vector", format!("differing {:?}", x.symmetric_difference(&y).take(4).collect::<Vec<_>>())));
+    }
     if a.oauth2 != b.oauth2 {
         out.push(("oauth2 client configuration", format!("{:?} vs {:?}", a.oauth2, b.oauth2)));
     }
     out
+}
+
+// ---------------------------------------------------------------------------------------------
+// C05: template with history (recycled -> tombstoned entries in the past)
+
+pub type SetupFn = Box<dyn FnOnce(&mut QueryServerWriteTransaction<'_>) -> Result<(), OperationError>>;
+
+impl Template {
+    /// Like `build`, with several setup transactions at the given offsets (seconds after T0).
+    pub fn build_steps(rt: &tokio::runtime::Runtime, steps: Vec<(u64, SetupFn)>) -> Template {
+        let scratch = Scratch::new();
+        let file = scratch.file("template.db");
+        rt.block_on(async {
+            let qs = open_qs(Some(&file), 2, srv::t0()).await.expect("template init");
+            for (off, f) in steps {
+                let mut w = qs.write(srv::ct(off)).await.expect("template write");
+                f(&mut w).expect("template setup");
+                w.commit().expect("template commit");
+            }
+            drop(qs);
+        });
+        Template { scratch, file }
+    }
+}
+
+pub const DAY: u64 = 86_400;
+
+/// Population of `populate` plus two persons that are deleted, then turned into tombstones 8 days
+/// later, so that a transaction 16+ days after T0 can purge them.
+pub fn c05_template(rt: &tokio::runtime::Runtime) -> Template {
+    Template::build_steps(
+        rt,
+        vec![
+            (
+                1,
+                Box::new(|w| {
+                    populate(w)?;
+                    ops::apply_in_txn(w, &Op::CreatePerson { i: 4, name: 12 })?;
+                    ops::apply_in_txn(w, &Op::CreatePerson { i: 5, name: 13 })
+                }),
+            ),
+            (
+                2,
+                Box::new(|w| {
+                    ops::apply_in_txn(w, &Op::Delete { t: Ref::P(4) })?;
+                    ops::apply_in_txn(w, &Op::Delete { t: Ref::P(5) })
+                }),
+            ),
+            (8 * DAY, Box::new(|w| ops::apply_in_txn(w, &Op::PurgeRecycled))),
+        ],
+    )
 }
